@@ -31,6 +31,7 @@ Accepted subset: see the report.  Anything else raises Reject and the entry
 point becomes a dummy with translator_ok_code8 := false.
 """
 import ast
+import pyimports
 import os
 import sys
 
@@ -408,11 +409,12 @@ def mutated_names(stmts):
     return out
 
 
+
 class Unit:
     def __init__(self):
         path = os.path.join(SRC, "parsers.py")
         with open(path) as fh:
-            self.tree = ast.parse(fh.read())
+            self.tree = pyimports.canonicalise(ast.parse(fh.read()))
         self.cls = None
         for n in self.tree.body:
             if isinstance(n, ast.ClassDef) and n.name == CLS:
